@@ -482,6 +482,14 @@ theorem l2_complete_withdrawal {s s' : Life2.St} {u i x y : Nat} {act : Life2.Ac
   obtain ⟨⟨h1, h2, h3⟩, rfl⟩ := h
   simp [Life2.setAct]; omega
 
+/-- a completed market-increase order (kind 4) moves exactly its escrowed collateral into vault and record; nothing
+leaves the pool and the supply is untouched. -/
+theorem l2_complete_increase {s s' : Life2.St} {u i x y : Nat} {act : Life2.Act}
+    (h : Life2.complete s u 4 i act x y = some s') :
+    s'.vaultLong = s.vaultLong + act.escLong ∧ s'.recLong = s.recLong + act.escLong ∧
+    s'.vaultShort = s.vaultShort ∧ s'.recShort = s.recShort ∧ s'.minted = s.minted ∧ s'.burned = s.burned := by
+  simp [Life2.complete] at h; subst h; simp [Life2.setAct]
+
 example : (Life2.run (Life2.init 10000 5000 100)
     [.create 0 0 0 2000 300 false 500000 0, .price 0, .exec .keeper 0 0 0 0 true false 600 0, .close (.user 0) 0 0 0,
      .create 0 1 0 100 0 false 0 0, .exec .keeper 0 1 0 0 true false 333 50]).1.recLong = 1667 := by decide
